@@ -306,6 +306,9 @@ def verify(contract, registry, src_root='/repo'):
     rep.paths = len(outs); rep.executor = x; rep.outs = outs
     try:
         return _collect_and_discharge(contract, x, outs, rep, t0)
+    except Unsupported as u:          # a clause met a value outside the modelled subset (e.g. an opaque result where a shaped value is expected): undecided
+        rep.status = 'undecided'; rep.reason = f'outside the modelled subset: {u}'; rep.wall_s = time.time() - t0; rep.obligations = []
+        return rep
     except (KeyError, AttributeError, IndexError, TypeError, ValueError, z3.Z3Exception) as ex:
         import traceback
         where = traceback.extract_tb(ex.__traceback__)[-1]
